@@ -95,6 +95,41 @@ Theorem C19_mutex_users :
 Proof. exact gen_mutex_users. Qed.
 Print Assumptions C19_mutex_users.
 
+(* ---- round 2.  Bookkeeping = {status, dt (sign), dt_last_done} (persisted scalars that reb_simulation_integrate overwrites on
+   entry) + message buffer.  Besides bookkeeping exactly one write is outside the mutex: the user heartbeat in the prologue. *)
+Theorem C19_core_unlocked_writes :
+  unlocked_writes (relabel integ_prologue) = ["reb_run_heartbeat"] /\
+  concat (map (fun b => unlocked_writes (relabel b)) integ_loop_heads) = [] /\
+  unlocked_writes (relabel integ_loop_body) = [] /\ unlocked_writes (relabel integ_epilogue) = [] /\
+  concat (map (fun h => unlocked_writes (relabel (snd h))) handlers) = [].
+Proof. exact gen_core_unlocked_writes. Qed.
+Print Assumptions C19_core_unlocked_writes.
+
+(* "a served snapshot equals a step-boundary state except in the bookkeeping fields" is FALSE: a serialisation can overlap the
+   prologue heartbeat (a user callback that may write anything) *)
+Theorem C19_served_boundary_modulo_bookkeeping_refuted :
+  wf true (core_system integ_prologue) = false /\
+  exists s, reach (core_system integ_prologue) s /\ gz (tS s) = true /\ integ_writing s = true /\ pcb (tI s) = 0.
+Proof. exact gen_core_quiescent_refuted. Qed.
+Print Assumptions C19_served_boundary_modulo_bookkeeping_refuted.
+
+(* ... and TRUE for all interleavings once the prologue is inside the mutex (the generated program with only that change) *)
+Theorem C19_served_boundary_modulo_bookkeeping_partial : forall s, reach (core_system prologue_locked) s ->
+  gz (tS s) = true -> integ_writing s = false /\ gst (tI s) = false.
+Proof. exact core_patched_quiescent. Qed.
+Print Assumptions C19_served_boundary_modulo_bookkeeping_partial.
+
+(* the stepping entry point reb_simulation_steps (sim.steps(n)) does not take the mutex: served_at_boundary is FALSE for a user
+   thread that steps this way, and TRUE once its loop body is wrapped in the lock *)
+Theorem C19_steps_api_served_at_boundary_refuted :
+  wf false steps_system = false /\ exists s, reach steps_system s /\ serializing s = true /\ in_step s = true.
+Proof. exact gen_steps_refuted. Qed.
+Print Assumptions C19_steps_api_served_at_boundary_refuted.
+
+Theorem C19_steps_api_served_at_boundary_partial : forall s, reach steps_system_patched s -> serializing s = true -> in_step s = false.
+Proof. exact steps_patched_at_boundary. Qed.
+Print Assumptions C19_steps_api_served_at_boundary_partial.
+
 (* the request loop closes every connection descriptor exactly once (no fclose(fdopen(fd)) followed by close(fd)) *)
 Theorem C19_server_closes_each_descriptor_once : server_double_close_sites = 0.
 Proof. exact gen_server_single_close. Qed.
